@@ -380,6 +380,16 @@ class Ctx:
                 self.known.append((role, text))
                 self.log(f'KNOWN-FINDING: property={self.pid} {role}: {kf["what"]}')
                 return 'known_finding', text
+        if any(p == path for _, p, _ in self.violations):
+            return 'violation', text          # the same replay was already reported for this obligation name prefix
+        seen = getattr(self, '_replays_seen', None)
+        if seen is None:
+            seen = self._replays_seen = {}
+        if h in seen:
+            # the same concrete counterexample confirms several obligations: one VIOLATION line, the others refer to it
+            self.violations.append((obligation, seen[h], text))
+            return 'violation', text
+        seen[h] = path
         self.violations.append((obligation, path, text))
         self.log(f'VIOLATION property={self.pid} replay={path}')
         self.log(f'  {obligation}: {text}')
